@@ -580,15 +580,6 @@ func (e *engine) peerReturn(q *aq, b, c int) {
 	if b%5 == 4 {
 		r.Exc = "peer says no"
 	}
-	for id, n := range q.params {
-		// references are fungible: B can only give back what it still holds
-		if left := e.exports[id].refs - n; left < 0 || left == 0 && e.pinned(id) {
-			r.RelParams = false
-		}
-	}
-	if len(q.params) > 0 && r.RelParams {
-		e.stats["return-releases-param-caps"]++
-	}
 	var caps []capRef
 	if r.Exc == "" {
 		n := 2
@@ -627,6 +618,23 @@ func (e *engine) peerReturn(q *aq, b, c int) {
 				r.Caps = append(r.Caps, rpcsim.CapDesc{Kind: "none"})
 			}
 		}
+	}
+	for id, n := range q.params {
+		// references are fungible: B can only give back what it still holds, and it cannot name in the same message
+		// an export it is giving up completely
+		left := e.exports[id].refs - n
+		named := false
+		for _, ref := range caps {
+			if ref.kind == "A" && ref.bid == id {
+				named = true
+			}
+		}
+		if left < 0 || left == 0 && (named || e.pinned(id)) {
+			r.RelParams = false
+		}
+	}
+	if len(q.params) > 0 && r.RelParams {
+		e.stats["return-releases-param-caps"]++
 	}
 	// embargoes A must raise: pipelined calls were made on a path that turns out to be A's own capability
 	if !q.finishSeen && r.Exc == "" {
